@@ -10,6 +10,7 @@ from .flow import Walker, World, GuardMap, compiler_unbound, names_in_target, _m
 from .model import norm
 
 PY3_NAMES = {}   # module name -> {name: bool}
+PY2_ONLY_METHODS = {'iteritems', 'iterkeys', 'itervalues', 'has_key'}
 
 
 def py3_truth(prog, mod, test):
@@ -429,8 +430,8 @@ def run_ief(run, rule_prefix, roots, triage=None, noreturn=(), exclude_modules=(
         fns.setdefault(qn, []).append((ctx, (qn, ctx)))
     rid = rule_prefix + '-IEF'
     run.rule(rid, 'no undefined name, no local read before assignment on a feasible if/else path, no call that cannot '
-                  'bind its arguments, no iteration over a possibly-None result, in any function reachable from the '
-                  'property\'s entry points')
+                  'bind its arguments, no iteration over a possibly-None result, no Python-2-only method call, in any function '
+                  'reachable from the property\'s entry points')
     nchecked = 0
     for qn in sorted(fns):
         f = prog.funcs[qn]
@@ -450,6 +451,11 @@ def run_ief(run, rule_prefix, roots, triage=None, noreturn=(), exclude_modules=(
                 run.note(rid, 'local %r may be unbound only via a zero-iteration loop or an exception edge' % nm, f, node)
                 continue
             probs.append(('UNBOUND', nm, node, 'local %r is read on a path on which it was never assigned' % nm))
+        for node in live_nodes(prog, f):
+            if isinstance(node, ast.Call) and isinstance(node.func, ast.Attribute) and node.func.attr in PY2_ONLY_METHODS \
+                    and node.func.attr not in prog._bymeth:
+                probs.append(('DENYAPI', node.func.attr, node,
+                              '.%s() exists neither on Python 3 dicts nor on pandas >= 2 objects: AttributeError when this line runs' % node.func.attr))
         for ctx, key in fns[qn]:
             for call, g, msg in arity(prog, f, ctx):
                 probs.append(('ARITY', norm(call)[:60], call, 'call cannot bind: ' + msg))
